@@ -1385,8 +1385,8 @@ def _eval_configs(acc, h, layout, configs, steps, mode, work, refcache, standalo
 
 QUICK_STEPS = ("commit", "pack", "repack", "pack-loose", "delref", "delref+gc", "retag", "retag+gc", "repack-excl", "deltag+gc")
 QUICK_LIVE_STEPS = ("commit", "pack", "repack", "delref+gc", "retag", "retag+gc")
-LIVE_FIRST_STEPS = {True: ("pack", "delref+gc", "retag+gc"), False: ("commit", "pack", "repack", "delref+gc", "retag", "retag+gc")}
-LIVE_FIRST_LAYOUTS = {True: ("pack1", "pack2"), False: ("pack1", "pack2", "mixed")}
+LIVE_FIRST_STEPS = {True: ("pack", "delref+gc", "retag+gc"), False: ("pack", "repack", "delref+gc", "retag+gc")}
+LIVE_FIRST_LAYOUTS = {True: ("pack1", "pack2"), False: ("pack1", "pack2")}
 MAIN_LAYOUTS = ("loose", "pack1", "pack2", "mixed")
 EXTRA_LAYOUTS = ("pack2o", "pack1-v1", "pack1-v3")
 DEFAULT = {"cg": "d", "midx": "d", "bitmap": "d", "prefs": "d"}
@@ -1434,7 +1434,7 @@ def plan_for(layout, tier, light=False, first=False):
             plan.append(("live", lv_cfg, [None] + list(QUICK_STEPS)))
         # live-first: every query in turn is the FIRST one a warmed-up long-lived Repo is asked after the step
         if first and layout in LIVE_FIRST_LAYOUTS[q]:
-            lf_cfg = [()] + singles_d + ([] if q else [(("prefs", "g"),), (("cg", "g"),), (("midx", "g"),)])
+            lf_cfg = [()] + singles_d + ([] if q else [(("prefs", "g"),)])
             plan.append(("live-first", lf_cfg, list(LIVE_FIRST_STEPS[q])))
     else:
         cfgs = [(), (("midx", "d"),), (("bitmap", "d"),)] + ([] if q else [(("cg", "d"),), full_d])
@@ -1999,7 +1999,7 @@ def run(ctx):
     bounds["live-first"] = ("%d histories x layouts %r x {none, each single%s} x steps %r: after the step every query of the cheap "
                             "families and every expensive family in turn is the first thing the warmed-up long-lived Repo is asked "
                             "(one forked copy of the process each)"
-                            % (nfirst, LIVE_FIRST_LAYOUTS[q], "" if q else ", prefs[g], cg[g], midx[g]", LIVE_FIRST_STEPS[q]))
+                            % (nfirst, LIVE_FIRST_LAYOUTS[q], "" if q else ", prefs[g]", LIVE_FIRST_STEPS[q]))
     bounds["octopus family"] = ("%d named histories with 2-3 octopus merges (5-6 commits, <=4 parents) x layouts %s x commit-graph "
                                 "writers %r fresh + live + stale (graph families of the battery)"
                                 % (len(OCTOPUS_SHAPES), "pack1" if q else "loose, pack1, pack2", WRITERS["cg"]))
